@@ -64,7 +64,7 @@ CHECKS = {
          "Open and lookups on borrowed bytes allocate nothing; live heap after every next() of stream/range/search and of k-way set operations is bounded by a function of L and k only; ladder N = 1e4, 1e5 (thorough 1e6) over partially overlapping, identical and disjoint inputs shows identical extra heap, on a narrow ladder and on a wide-node ladder (dense root, N/40 distinct wide nodes, up to 655360 keys).",
          "'for all N' beyond the ladder is not decided.", "DESIGN.md section 5 C14"),
  "C15": (MC, "byte equality over all front ends for the enumerated sequences + exhaustive call-level interleavings of 2-3 concurrent builders + digests across threads and processes",
-         "All 17 front ends and 4 sinks give identical bytes (also under evicting cache geometries; also a bulk-load size ladder of 1..400004 items, thorough 3.3 million, through every bulk entry point); every multiset permutation of the API calls of two (three) builders leaves each builder's output equal to its solo run; whole-scope digest equal on 8 threads and in 4 processes.",
+         "All 17 front ends and 4 sinks give identical bytes (also under evicting cache geometries; also a bulk-load size ladder of 1..400004 items, thorough 3.3 million, through every bulk entry point); every multiset permutation of the API calls of two (three) builders leaves each builder's output equal to its solo run; whole-scope digest equal on 8 threads and in 4 processes; builders moved between fresh threads; a guard-off build of the library agrees with the hooks-on build on a fixed scope.",
          "No synchronisation exists in the library (scanned), so a controlled thread scheduler would be vacuous; threads/processes part is a repetition, not an enumeration.", "DESIGN.md section 5 C15"),
  "C19": (MC, "stateful exhaustive exploration of all channel-level schedules of the real merge pipeline (controlled scheduler, happens-before state caching) x configuration grid vs merge model",
          "The real cmd::map/set::run runs in-process under a controlled scheduler (hook H5): all interleavings of listed configurations (up to 3 batches / 2-3 workers / 2 generations) are explored; every complete execution must give a verifiable FST equal to the model merge and byte-identical across schedules; grid of all small inputs x batch/fd/threads/mode and a many-batches family (5..24 batches) under the default schedule, and the free-running real binary. A TLA+ model of one pipeline round (model/MergeRound.tla) is bound to the code by outcome conformance (for every explored round the set of result orders reachable in the model, from TLC's state dump, equals the set observed in the code) and is then model-checked with TLC for larger rounds (deadlock freedom, nothing lost or duplicated).",
@@ -108,6 +108,8 @@ def main():
              "kind_free_text": "SEQ/ENV engines: bounded exhaustive enumeration of histories, inputs and sink answer schedules on the real library, compared with reference models (Rust)"},
             {"name": "binharness", "path": "/verif/harness/binharness", "serves_properties": ["C19"] if "C19" in CHECKS else [],
              "kind_free_text": "SCHED engine: controlled scheduler over the real fst-bin merge pipeline (channel-level choice points, happens-before state caching)"},
+            {"name": "plain", "path": "/verif/plain", "serves_properties": ["C15"],
+             "kind_free_text": "guard-OFF parity binary: the library built without the verification cfg digests a fixed scope of public-API behaviour; C15 compares it with the hooks-on process, so that code compiled only when the guard is off is not invisible to the harness"},
         ],
         "checks": checks,
         "not_applicable": na,
